@@ -229,6 +229,145 @@ fn divrem_mag(a: &[u32], b: &[u32]) -> (Vec<u32>, Vec<u32>) {
     (q, r)
 }
 
+fn to64(a: &[u32]) -> Vec<u64> {
+    let mut r = Vec::with_capacity(a.len() / 2 + 1);
+    let mut i = 0;
+    while i < a.len() {
+        let lo = a[i] as u64;
+        let hi = if i + 1 < a.len() { a[i + 1] as u64 } else { 0 };
+        r.push(lo | (hi << 32));
+        i += 2;
+    }
+    while let Some(&0) = r.last() {
+        r.pop();
+    }
+    r
+}
+
+fn from64(a: &[u64]) -> Vec<u32> {
+    let mut r = Vec::with_capacity(a.len() * 2);
+    for &x in a {
+        r.push(x as u32);
+        r.push((x >> 32) as u32);
+    }
+    trim(&mut r);
+    r
+}
+
+fn tz64(a: &[u64]) -> usize {
+    for (i, &x) in a.iter().enumerate() {
+        if x != 0 {
+            return i * 64 + x.trailing_zeros() as usize;
+        }
+    }
+    0
+}
+
+fn shr64_inplace(a: &mut Vec<u64>, n: usize) {
+    if n == 0 {
+        return;
+    }
+    let limbs = n / 64;
+    let bits = (n % 64) as u32;
+    if limbs >= a.len() {
+        a.clear();
+        return;
+    }
+    let len = a.len() - limbs;
+    if bits == 0 {
+        for i in 0..len {
+            a[i] = a[i + limbs];
+        }
+    } else {
+        for i in 0..len {
+            let lo = a[i + limbs] >> bits;
+            let hi = if i + limbs + 1 < a.len() { a[i + limbs + 1] << (64 - bits) } else { 0 };
+            a[i] = lo | hi;
+        }
+    }
+    a.truncate(len);
+    while let Some(&0) = a.last() {
+        a.pop();
+    }
+}
+
+fn cmp64(a: &[u64], b: &[u64]) -> Ordering {
+    if a.len() != b.len() {
+        return a.len().cmp(&b.len());
+    }
+    for i in (0..a.len()).rev() {
+        if a[i] != b[i] {
+            return a[i].cmp(&b[i]);
+        }
+    }
+    Ordering::Equal
+}
+
+/// a -= b (a >= b)
+fn sub64_inplace(a: &mut Vec<u64>, b: &[u64]) {
+    let mut borrow = false;
+    for i in 0..a.len() {
+        let bi = if i < b.len() { b[i] } else { 0 };
+        let (d1, o1) = a[i].overflowing_sub(bi);
+        let (d2, o2) = d1.overflowing_sub(borrow as u64);
+        a[i] = d2;
+        borrow = o1 || o2;
+        if i >= b.len() && !borrow {
+            break;
+        }
+    }
+    while let Some(&0) = a.last() {
+        a.pop();
+    }
+}
+
+/// gcd of magnitudes: one Knuth division to balance the sizes, then in-place binary gcd
+fn gcd_mag(a: &[u32], b: &[u32]) -> Vec<u32> {
+    if a.is_empty() {
+        return b.to_vec();
+    }
+    if b.is_empty() {
+        return a.to_vec();
+    }
+    let (mut a, mut b) = (a.to_vec(), b.to_vec());
+    // balance
+    for _ in 0..2 {
+        if cmp_mag(&a, &b) == Ordering::Less {
+            std::mem::swap(&mut a, &mut b);
+        }
+        if bitlen_mag(&a) > bitlen_mag(&b) + 48 {
+            let (_, r) = divrem_mag(&a, &b);
+            a = r;
+            if a.is_empty() {
+                return b;
+            }
+        }
+    }
+    let mut a = to64(&a);
+    let mut b = to64(&b);
+    let za = tz64(&a);
+    let zb = tz64(&b);
+    let z = za.min(zb);
+    shr64_inplace(&mut a, za);
+    shr64_inplace(&mut b, zb);
+    loop {
+        match cmp64(&a, &b) {
+            Ordering::Equal => break,
+            Ordering::Greater => {
+                sub64_inplace(&mut a, &b);
+                let t = tz64(&a);
+                shr64_inplace(&mut a, t);
+            }
+            Ordering::Less => {
+                sub64_inplace(&mut b, &a);
+                let t = tz64(&b);
+                shr64_inplace(&mut b, t);
+            }
+        }
+    }
+    shl_mag(&from64(&a), z)
+}
+
 impl BigInt {
     pub fn zero() -> Self {
         BigInt { neg: false, mag: Vec::new() }
@@ -327,26 +466,16 @@ impl BigInt {
         }
     }
     pub fn gcd(&self, o: &Self) -> Self {
-        let mut a = self.mag.clone();
-        let mut b = o.mag.clone();
-        if a.is_empty() {
-            return BigInt::from_mag(false, b);
+        BigInt::from_mag(false, gcd_mag(&self.mag, &o.mag))
+    }
+    /// exact division (caller guarantees divisibility)
+    pub fn div_exact(&self, o: &Self) -> Self {
+        if o.is_one() {
+            return self.clone();
         }
-        if b.is_empty() {
-            return BigInt::from_mag(false, a);
-        }
-        // strip common powers of two first: cheap and most operands are dyadic-heavy
-        let za = tz_mag(&a);
-        let zb = tz_mag(&b);
-        let z = za.min(zb);
-        a = shr_mag(&a, za);
-        b = shr_mag(&b, zb);
-        while !b.is_empty() {
-            let (_, r) = divrem_mag(&a, &b);
-            a = b;
-            b = r;
-        }
-        BigInt::from_mag(false, shl_mag(&a, z))
+        let (q, r) = self.div_rem(o);
+        debug_assert!(r.is_zero());
+        q
     }
     pub fn cmp(&self, o: &Self) -> Ordering {
         match (self.neg, o.neg) {
@@ -430,7 +559,7 @@ impl Rat {
         let (mut n, mut d) = if g.is_one() {
             (num, den)
         } else {
-            (num.div_rem(&g).0, den.div_rem(&g).0)
+            (num.div_exact(&g), den.div_exact(&g))
         };
         if d.is_neg() {
             n = n.neg();
@@ -501,20 +630,57 @@ impl Rat {
         Rat { num: self.num.abs(), den: self.den.clone() }
     }
     pub fn add(&self, o: &Self) -> Self {
+        if self.num.is_zero() {
+            return o.clone();
+        }
+        if o.num.is_zero() {
+            return self.clone();
+        }
         if self.den == o.den {
             return Rat::new(self.num.add(&o.num), self.den.clone());
         }
-        Rat::new(self.num.mul(&o.den).add(&o.num.mul(&self.den)), self.den.mul(&o.den))
+        // Knuth 4.5.1: only gcds of the smaller operands
+        let g = self.den.gcd(&o.den);
+        if g.is_one() {
+            return Rat {
+                num: self.num.mul(&o.den).add(&o.num.mul(&self.den)),
+                den: self.den.mul(&o.den),
+            };
+        }
+        let d1 = self.den.div_exact(&g);
+        let d2 = o.den.div_exact(&g);
+        let t = self.num.mul(&d2).add(&o.num.mul(&d1));
+        if t.is_zero() {
+            return Rat::zero();
+        }
+        let g2 = t.gcd(&g);
+        if g2.is_one() {
+            Rat { num: t, den: d1.mul(&o.den) }
+        } else {
+            Rat { num: t.div_exact(&g2), den: d1.mul(&o.den.div_exact(&g2)) }
+        }
     }
     pub fn sub(&self, o: &Self) -> Self {
         self.add(&o.neg())
     }
     pub fn mul(&self, o: &Self) -> Self {
-        Rat::new(self.num.mul(&o.num), self.den.mul(&o.den))
+        if self.num.is_zero() || o.num.is_zero() {
+            return Rat::zero();
+        }
+        let g1 = self.num.gcd(&o.den);
+        let g2 = o.num.gcd(&self.den);
+        let (n1, d2) = if g1.is_one() { (self.num.clone(), o.den.clone()) } else { (self.num.div_exact(&g1), o.den.div_exact(&g1)) };
+        let (n2, d1) = if g2.is_one() { (o.num.clone(), self.den.clone()) } else { (o.num.div_exact(&g2), self.den.div_exact(&g2)) };
+        Rat { num: n1.mul(&n2), den: d1.mul(&d2) }
     }
     pub fn div(&self, o: &Self) -> Self {
         assert!(!o.is_zero(), "Rat division by zero");
-        Rat::new(self.num.mul(&o.den), self.den.mul(&o.num))
+        let r = if o.num.is_neg() {
+            Rat { num: o.den.neg(), den: o.num.neg() }
+        } else {
+            Rat { num: o.den.clone(), den: o.num.clone() }
+        };
+        self.mul(&r)
     }
     pub fn recip(&self) -> Self {
         Rat::one().div(self)
@@ -711,6 +877,11 @@ pub fn selftest(seed: u64) -> Result<u64, String> {
         }
         if a.sub(&a) != Rat::zero() {
             return Err("rat sub".into());
+        }
+        for r in [a.add(&c), a.mul(&c), a.add(&b).div(&c.add(&Rat::ratio(1001, 7))), a.sub(&b).mul(&c)] {
+            if r != Rat::new(r.num.clone(), r.den.clone()) || r.den.signum() != 1 {
+                return Err("rat result not normalised".into());
+            }
         }
         n += 5;
     }
